@@ -15,6 +15,7 @@ package py
 import (
 	"bytes"
 	"fmt"
+	"math/big"
 	"strconv"
 	"strings"
 	"unicode"
@@ -571,14 +572,53 @@ func (a String) M__mod__(other Object) (Object, error) {
 		values = Tuple{other}
 	}
 	// FIXME not a full implementation ;-)
+	var err error
 	params := make([]interface{}, len(values))
 	for i := range values {
-		params[i] = values[i]
+		switch v := values[i].(type) {
+		case String, Int, Float, Complex, Bool, error:
+			params[i] = v
+		case *BigInt:
+			params[i] = (*big.Int)(v)
+		default:
+			params[i] = modValue{v, &err}
+		}
 	}
 	s := string(a)
 	s = strings.Replace(s, "%s", "%v", -1)
 	s = strings.Replace(s, "%r", "%#v", -1)
-	return String(fmt.Sprintf(s, params...)), nil
+	res := fmt.Sprintf(s, params...)
+	if err != nil {
+		return nil, err
+	}
+	return String(res), nil
+}
+
+// modValue is a value for % which fmt can't write itself
+//
+// fmt would write the Go representation of it, and never end for a
+// dict which contains itself, so it writes its own str for %s and
+// repr for %r and notes a TypeError in err for the other formats
+type modValue struct {
+	obj Object
+	err *error
+}
+
+func (v modValue) Format(f fmt.State, verb rune) {
+	var s string
+	var err error
+	switch {
+	case verb != 'v':
+		err = ExceptionNewf(TypeError, "%%%c format: a number is required, not %s", verb, v.obj.Type().Name)
+	case f.Flag('#'):
+		s, err = ReprAsString(v.obj)
+	default:
+		s, err = StrAsString(v.obj)
+	}
+	if err != nil && *v.err == nil {
+		*v.err = err
+	}
+	_, _ = f.Write([]byte(s))
 }
 
 func (a String) M__rmod__(other Object) (Object, error) {
